@@ -200,6 +200,7 @@ Section StInd.
   Variable P : st -> Prop.
   Hypothesis Hid : forall x, P (SId x).
   Hypothesis Hlit : forall l, P (SLit l).
+  Hypothesis Hneglit : forall z, P (SNegLit z).
   Hypothesis Hsel : forall a f, P a -> P (SSel a f).
   Hypothesis Hidx : forall a i, P a -> P i -> P (SIdx a i).
   Hypothesis Hmcall : forall a f args, P a -> Forall P args -> P (SMCall a f args).
@@ -221,6 +222,7 @@ Section StInd.
     match t with
     | SId x => Hid x
     | SLit l => Hlit l
+    | SNegLit z => Hneglit z
     | SSel a f => Hsel a f (st_ind' a)
     | SIdx a i => Hidx a i (st_ind' a) (st_ind' i)
     | SMCall a f args => Hmcall a f args (st_ind' a) (many args)
@@ -712,6 +714,16 @@ Proof.
       - cbn [literal_of]. destruct (decode_bytes t) as [b'|]; [|discriminate].
         apply str_eqb_eq in W. now subst b'. }
     rewrite E. apply H. lia.
+  - (* negative integer literal *)
+    apply andb_prop in W as [W0 W1].
+    assert (HP : Par (SNegLit z)).
+    { apply par_all; [|cbn; lia]. intros rest Hs. cbn [prec] in Hs. cbn [prec p_at raw app].
+      assert (S7 : stops 7 rest) by (eapply stops_le; [|exact Hs]; lia).
+      exists 3. intros [|[|[|f]]] Hf; try lia.
+      rewrite u_unary_minus. cbn [is_number_tok]. rewrite u_member, u_primary. cbn [literal_of].
+      pose proof (int_literal_dec z W1) as E. rewrite W0 in E. replace (Z.abs z) with (- z)%Z in E by lia.
+      rewrite E. cbn [option_map]. now apply postfix_stop. }
+    apply good_low; [cbn; lia|exact HP|cbn; intros; discriminate|cbn; intros; discriminate|cbn; intros; discriminate].
   - (* field selection *)
     destruct (IHt W) as (_ & _ & _ & _ & Ka).
     apply good_prim; [reflexivity|]. intros R X [Rm Rp] [n H].
